@@ -8,16 +8,7 @@ catalog load to the same view.
 namespace I18n.Meta
 open I18n.Check I18n.Po I18n.Spec.PoSpelling
 
-/-- `polib.pofile(path)` / `polib.pofile(path, encoding='ISO-8859-1')` as `Checker.check` sees it (cf. `Po.checkerLoad`) -/
-def poLoad (env : Po.Env) (file : Po.Bytes) (retry : Bool) : Except LoadErr PoFile :=
-  match (if retry then loadWith env latin1Name file else load env file) with
-  | .ok f => .ok f
-  | .error (.syntax _ _) => .error .poSyntax
-  | .error .decode => .error .unicodeDecode
-  | .error .crash => .error .other
-
-/-- what lib/check/ can see of a loaded PO file: the header comment and the entries without polib's `linenum` -/
-def poView (f : PoFile) : Po.Text × List Po.Entry := (f.header, f.entries.map Lemmas.PoCatalog.content)
+theorem poView_content (f : PoFile) : poView f = (f.header, f.entries.map Lemmas.PoCatalog.content) := rfl
 
 /-- **`file` spells `cat`** in the charset `name` (codec `E`): the hypotheses of C10's `load_spells_detected_partial`, all about
     the file's bytes and lines — the charset is declared on the first physical line that matches polib's pattern, the file
@@ -48,7 +39,7 @@ theorem poLoad_spelled (env : Po.Env) (hpy : PyEnv env) (E : Codec) (name : Po.B
     pre post rest h1 h2 h3 h4 h5 h6 contents g1 body tail g2 g3 g4
   refine ⟨f, ?_, ?_⟩
   · simp [poLoad, hf]
-  · simp [poView, hh, he]
+  · simp [poView_content, hh, he]
 
 /-- when the first loader call succeeds, `check` never makes the second one -/
 theorem check_first_ok {F σ τ : Type} (statOk : Bool) (ext : Ext) (load : Bool → Except LoadErr F) (init : F → Bool → σ)
